@@ -34,6 +34,7 @@ type zzPipeConn struct {
 	out     []byte
 	closed  int
 	failW   error
+	failAt  int // when > 0: the failAt-th write (and every later one) fails with failW
 	writes  int
 }
 
@@ -46,7 +47,7 @@ func (c *zzPipeConn) Read(p []byte) (int, error) {
 	return n, nil
 }
 func (c *zzPipeConn) Write(p []byte) (int, error) {
-	if c.failW != nil {
+	if c.failW != nil && (c.failAt == 0 || c.writes+1 >= c.failAt) {
 		return 0, c.failW
 	}
 	c.writes++
@@ -72,7 +73,12 @@ type zzFwdClient struct {
 func (c *zzFwdClient) Conn() net.Conn                  { return c.conn }
 func (c *zzFwdClient) Context() context.Context        { return context.Background() }
 func (c *zzFwdClient) Close() error                    { c.closed++; return nil }
-func (c *zzFwdClient) ReadBuffered() ([]byte, error)   { return c.buffered, c.bufferedErr }
+// ReadBuffered drains the reader's buffer like the real one: the bytes are handed out once.
+func (c *zzFwdClient) ReadBuffered() ([]byte, error) {
+	b := c.buffered
+	c.buffered = nil
+	return b, c.bufferedErr
+}
 
 var errZZDial = errors.New("dial tcp: connection refused")
 
@@ -82,6 +88,7 @@ type zzDialer struct {
 	dialed   []string
 	backends map[string]*zzPipeConn
 	refuse   map[string]bool
+	breakAt  map[string]int // address -> number of the first write that fails (connection reset)
 	fromBackend []byte
 }
 
@@ -92,6 +99,9 @@ func (d *zzDialer) install() {
 			return nil, errZZDial
 		}
 		b := &zzPipeConn{remote: &net.TCPAddr{IP: net.IPv4(10, 9, 9, 9), Port: 25566}, in: d.fromBackend}
+		if k := d.breakAt[address]; k > 0 {
+			b.failW, b.failAt = errZZDial, k
+		}
 		if d.backends == nil {
 			d.backends = map[string]*zzPipeConn{}
 		}
